@@ -22,7 +22,15 @@ func runWalks(c *harness.Ctx, walks, steps, hostile int, noSysDest bool, enabled
 
 func runWalksOpt(c *harness.Ctx, walks int, o WalkOpts, enabled ...string) {
 	r := c.Rand("walk")
+	base := o
 	for i := 0; i < walks; i++ {
+		o := base
+		switch i % 5 {
+		case 3:
+			o.PadNumbers = true // non-minimal number encodings among the arguments
+		case 4:
+			o.Faults = 12 // dependency faults: the failed attempt is rolled back and processed again
+		}
 		w := NewWalk(r.Fork(uint64(i)), c.R, o, enabled...)
 		w.Run()
 		c.R.Eval(w.U.N.Seq())
